@@ -7,7 +7,12 @@ use std::ffi::{CStr, CString};
 use std::fs;
 use std::path::Path;
 use std::ptr;
+#[cfg(not(wowrs_verif))]
 use std::sync::{LazyLock, Mutex};
+// Verification builds (--cfg wowrs_verif) route the handle tables through a
+// scheduler-controlled facade supplied by the verification harness.
+#[cfg(wowrs_verif)]
+use verif_sync::{thread_local, LazyLock, Mutex};
 
 use wow_mpq::{
     AddFileOptions, Archive, ArchiveBuilder, AttributesOption, FileEntry, FormatVersion,
